@@ -109,7 +109,7 @@ def forms(p: str) -> List[str]:
 
 def forms_for(kind: str, p: str) -> List[str]:
     fs = forms(p)
-    if kind.startswith(("reexport.", "nested.")):
+    if kind.startswith(("reexport.", "nested.", "inherit.")):
         fs += [RAWTAIL, placeholder(RAWTAIL)]        # the raw block planted next to the payload
     if RAWTAIL in p or placeholder(RAWTAIL) in p:
         head = p[:len(MARK) + 2]
@@ -130,7 +130,14 @@ PYVAL_KINDS = ["strconst", "default", "annotation", "decoarg", "baseexpr", "type
 KINDS = (["modname"] + [f"doc.{f}" for f in DOCFORMATS] + [f"field.{f}" for f in DOCFORMATS if f != "plaintext"]
          + ["xref.epytext", "xref.restructuredtext", "doctest.epytext", "doctest.restructuredtext"]
          + PYVAL_KINDS + ["deprecated"] + [f"imagealt.{e}" for e in ("png", "pdf", "PNG", "svg", "SVG", "webm")] + ["imageuri.svg"]
-         + ["reexport.plaintext", "nested.plaintext.appfirst", "nested.plaintext.pkgfirst", "mathtext", "projname", "projurl"])
+         + ["reexport.plaintext", "nested.plaintext.appfirst", "nested.plaintext.pkgfirst", "inherit.plaintext.before", "inherit.plaintext.after",
+            "heading.epytext", "mathtext", "projname", "projurl"])
+# docstring kinds of RoleHistory.tla (one function per docstring, in history order)
+ROLE_DOCSTRINGS = {
+    "rawfail": ".. role:: html(raw)\n   :format: html\n\n.. default-role:: html\n\nDeclares a raw default role, then docutils raises.\n\n"
+               ".. csv-table::\n   :escape:\n\n   a,b\n",
+    "rawok": ".. role:: html(raw)\n   :format: html\n\n.. default-role:: html\n\nDeclares a raw default role and parses fine.\n",
+}
 
 
 def payload_for(kind: str, p: str) -> str:
@@ -225,6 +232,28 @@ def gen(kind: str, p: str) -> Dict[str, Any]:
         # no :alt: - the uri itself is what the <object> shows
         args = ["--docformat", "restructuredtext"]
         d = f"Module.\n\n.. image:: {p}.svg\n\nEnd."
+        files["zpkg/amod.py"] = _escape_docstring_source(_ds(d, 0) + "class Dcls:\n" + _ds(d, 4))
+    elif kind.startswith("rolehist:"):
+        # RoleHistory.tla: the docstrings of a history, one function each, in order; `clean` ones carry the payload
+        args = ["--docformat", "restructuredtext"]
+        src = '"""Module."""\n'
+        for n, k in enumerate(kind.split(":", 1)[1].split(","), 1):
+            src += f"def f{n}():\n" + _ds(ROLE_DOCSTRINGS.get(k) or f"Text `{p}` end.", 4)
+        files["zpkg/amod.py"] = _escape_docstring_source(src)
+    elif kind.startswith("inherit.plaintext."):
+        args = ["--docformat", "restructuredtext"]
+        block = "<i>" + RAWTAIL
+        if not any(c in p for c in "<>&\"'"):
+            block = placeholder(block)              # the twin
+        d = f"Word {p} first. More text.\n\nSecond {p} paragraph.\n\n.. raw:: html\n\n   {block}\n"
+        files["zpkg/base.py"] = '"""Base module, reStructuredText."""\nclass Base:\n    "Base."\n    def meth(self):\n        "Inherited *docstring* of meth."\n'
+        cls = "from zpkg.base import Base\nclass Child(Base):\n    def meth(self):\n        pass\n"
+        fun = "def fun():\n" + _ds(d, 4)
+        files["zpkg/plain.py"] = _escape_docstring_source('__docformat__ = "plaintext"\n' + (cls + fun if kind.endswith("before") else
+                                                                                           "from zpkg.base import Base\n" + fun + cls.split("\n", 1)[1]))
+    elif kind == "heading.epytext":
+        head = f"R\u00e9sum\u00e9 {p}"
+        d = f"Module.\n\n{head}\n{'=' * len(head)}\nSection text.\n"
         files["zpkg/amod.py"] = _escape_docstring_source(_ds(d, 0) + "class Dcls:\n" + _ds(d, 4))
     elif kind.startswith("nested.plaintext."):
         # zpkg/sub/mod.py two packages deep, `__docformat__ = "plaintext"` in the OUTER __init__; a root module imports from it
@@ -827,6 +856,12 @@ INVARIANT {sink}
 INVARIANT WellTyped
 INVARIANT SameAsWalk
 """
+CFG_ROLEHIST = """SPECIFICATION Spec
+CONSTANTS MaxLen = {maxlen}
+          Cleanup = "{cleanup}"
+CONSTRAINT Emit
+INVARIANT StartsStandard
+"""
 CFG_FILE = """SPECIFICATION Spec
 CONSTANTS Source = "file"
 CONSTRAINT EmitFile
@@ -946,7 +981,7 @@ def run(ctx: Ctx) -> int:
     r, model = enumerate_model()
     pairs = r.printed
     ctx.exhaustive = True
-    unknown = sorted({k for k, _ in model} - set(KINDS))
+    unknown = sorted({k for k, _ in model} - set(KINDS) - {"rolehist"})
     if unknown:
         raise MachineryError(f"Escape.tla enumerates source kinds the harness cannot plant: {unknown}")
     kinds = [k for k in KINDS if (k, "plain") in model]
@@ -955,6 +990,20 @@ def run(ctx: Ctx) -> int:
     if "deprecated" in kinds:
         plan += [("deprecated", f"linesep-{n}", linesep_payload(c), n in MODELLED_LINESEP) for n, c in LINE_SEPARATORS.items()]
         plan += [("deprecated", "backtick-link", MARK + "<x`` `click" + MARK + " <javascript:alert(1)>`_ ``" + END, False)]
+    # RoleHistory.tla: histories of reST docstrings in one process; those with a clean docstring are planted
+    rh = ctx.tlc("RoleHistory", CFG_ROLEHIST.format(maxlen=2 if ctx.quick else 3, cleanup="always"), workers=1, check=True, timeout=300)
+    if rh.violated or not rh.printed:
+        raise MachineryError(f"RoleHistory.tla: {rh.violated or 'no history printed'}")
+    role_histories = [x for x in rh.printed if "clean" in x["hist"]]
+    for x in role_histories:
+        if any(r != "std" for r in x["startsUnder"]):
+            raise MachineryError(f"RoleHistory.tla lets a docstring start under a raw default role: {x}")
+        plan += [("rolehist:" + ",".join(x["hist"]), v, VARIANTS[v], True) for v in ("markup", "entities")]
+    rh2 = ctx.tlc("RoleHistory", CFG_ROLEHIST.format(maxlen=2, cleanup="on_success"), workers=1, timeout=300, count=False)
+    if "StartsStandard" not in rh2.violated:
+        raise MachineryError("negative control: RoleHistory.tla with Cleanup=on_success does not violate StartsStandard")
+    ctx.extra["role_histories"] = {"enumerated": len(rh.printed), "planted": len(role_histories),
+                                   "negative_control_on_success_violates": rh2.violated}
     for k in kinds:
         for i in range(2 if ctx.quick else 100):
             plan.append((k, f"random{i}", random_payload(rng), False))
@@ -1006,7 +1055,7 @@ def run(ctx: Ctx) -> int:
             continue
         not_intact += sum(1 for o in can["occ"] if o["level"] == NOT_INTACT)
         cls = payload_class(can["payload"], k)
-        for b in judge_pair(can, pla, strict_appears=modelled and bool(model.get((k, cls), {"sinks": set()})["sinks"])):
+        for b in judge_pair(can, pla, strict_appears=modelled and bool(model.get((k.split(":")[0], cls), {"sinks": set()})["sinks"])):
             if b["invariant"] == "SkeletonEqual":
                 b["where"] = skeleton_diff(jobs[2 * i], jobs[2 * i + 1], b["page"])
             ctx.violation({**b, "kind": k, "variant": v, "payload": can["payload"], "placeholder": pla["payload"],
@@ -1015,7 +1064,10 @@ def run(ctx: Ctx) -> int:
         events = [list(e) for e in can["events"]]
         if modelled:
             twin.append("pending")
-            observed_records.append({"kind": k, "variant": v, "cls": cls, "sinks": [list(x) for x in sinks if x[3] != NOT_INTACT], "events": events})
+            # events on pieces of the canary (a slug made of its letters ...) carry no level: not part of the flow
+            observed_records.append({"kind": k.split(":")[0], "variant": v if ":" not in k else v + "@" + k.split(":", 1)[1], "cls": cls,
+                                     "sinks": [list(x) for x in sinks if x[3] != NOT_INTACT],
+                                     "events": [e for e in events if NOT_INTACT not in e[1:]]})
         if i % 11 == 0:
             ctx.sample({"kind": k, "variant": v, "payload": can["payload"], "sinks": sinks[:6], "events": events,
                         "pages": len(can["pages"]), "skeleton_equal": not any(b["invariant"] == "SkeletonEqual" for b in judge_pair(can, pla, False))})
@@ -1027,7 +1079,8 @@ def run(ctx: Ctx) -> int:
                 continue
             m = mdl.get((o["kind"], o["cls"]), {"sinks": set(), "steps": set()})
             obs_s = {tuple(x) for x in o["sinks"]}
-            obs_e = {tuple(e) for e in o["events"]}
+            # events on pieces of the canary (a slug made of its letters ...) carry no level
+            obs_e = {tuple(e) for e in o["events"] if NOT_INTACT not in e[1:]}
             out.append({"sinks_not_in_model": sorted(obs_s - m["sinks"], key=str), "model_sinks_not_seen": sorted(m["sinks"] - obs_s, key=str),
                         "steps_not_in_model": sorted(obs_e - m["steps"], key=str), "model_steps_not_seen": sorted(m["steps"] - obs_e, key=str)})
         return out
